@@ -170,6 +170,14 @@ NumeralFaults(s) ==
                                     /\ RefClass(s[e].locals[l].refs[r].rk) = "local" /\ AllNamed(s[e])} }
   IN topaux \cup locaux \cup loc
 
+\* a value numbered %0 by the source although an unnamed value precedes it in the function (the unnamed one IS %0):
+\* a second definition of %0 (in the IR an ID of 0 also means "not numbered", which hid it from the validation)
+UnnamedValue(lc) == lc.n = "" /\ lc.lk \in {"param", "inst"}
+BadZero(f) == \E x, y \in 1..Len(f.locals) : x < y /\ UnnamedValue(f.locals[x]) /\ f.locals[y].n = UndefN
+DupZeroFaults(s) ==
+  { [s EXCEPT ![e] = [@ EXCEPT !.locals = Append(@, Loc(UndefN, "inst", <<>>))]] :
+      e \in {e \in 1..Len(s) : s[e].k = "func" /\ s[e].body = "def" /\ \E l \in 1..Len(s[e].locals) : UnnamedValue(s[e].locals[l])} }
+
 \* permutations of the top-level entities that keep the relative order of unnamed globals and of
 \* entities with the same key (attribute groups / named metadata merged in textual order);
 \* use-list order directives stay last (LLVM wants their targets defined)
@@ -189,12 +197,12 @@ Perms(s) == { [x \in 1..Len(s) |-> s[p[x]]] : p \in {q \in CandPerms(Len(s)) : P
 PatternSet == {Patterns[k] : k \in 1..Len(Patterns)}
 AllSources ==
   CASE SourceSet = "patterns" -> PatternSet
-    [] SourceSet = "faults"   -> UNION {RefFaults(s) \cup DupFaults(s) \cup ClashFaults(s) \cup QuotedFaults(s) \cup DelFaults(s) \cup NumeralFaults(s) : s \in PatternSet}
+    [] SourceSet = "faults"   -> UNION {RefFaults(s) \cup DupFaults(s) \cup ClashFaults(s) \cup QuotedFaults(s) \cup DelFaults(s) \cup NumeralFaults(s) \cup DupZeroFaults(s) : s \in PatternSet}
     [] SourceSet = "perms"    -> UNION {Perms(s) : s \in PatternSet}
     [] SourceSet = "faultperms" -> UNION {UNION {RefFaults(t) \cup DupFaults(t) \cup ClashFaults(t) : t \in Perms(s)} : s \in {u \in PatternSet : Len(u) <= 5}}
     [] SourceSet = "alias"    -> {AliasPatterns[k] : k \in 1..Len(AliasPatterns)}
                                   \cup UNION {RefFaults(AliasPatterns[k]) : k \in 1..Len(AliasPatterns)}
-    [] SourceSet = "all"      -> PatternSet \cup UNION {RefFaults(s) \cup DupFaults(s) \cup ClashFaults(s) \cup QuotedFaults(s) \cup DelFaults(s) \cup NumeralFaults(s) : s \in PatternSet}
+    [] SourceSet = "all"      -> PatternSet \cup UNION {RefFaults(s) \cup DupFaults(s) \cup ClashFaults(s) \cup QuotedFaults(s) \cup DelFaults(s) \cup NumeralFaults(s) \cup DupZeroFaults(s) : s \in PatternSet}
                                   \cup {AliasPatterns[k] : k \in 1..Len(AliasPatterns)}
 
 ----------------------------------------------------------------------------
@@ -235,8 +243,9 @@ HasUndef(s) == \E t \in AllRefs(s) : ~RefDefined(s, t[1], RefAt(s, t))
 DupIdx == {"type", "comdat", "glob", "md"}
 HasDupTop(s) == \E x, y \in 1..Len(s) : x < y /\ IndexOf(s[x].k) \in DupIdx
                     /\ IndexOf(s[x].k) = IndexOf(s[y].k) /\ KeyOf(s, x) = KeyOf(s, y)
-HasDupLocal(s) == \E e \in 1..Len(s) : \E x, y \in 1..Len(s[e].locals) :
-                    x < y /\ s[e].locals[x].n # "" /\ s[e].locals[x].n = s[e].locals[y].n
+HasDupLocal(s) == \/ \E e \in 1..Len(s) : \E x, y \in 1..Len(s[e].locals) :
+                          x < y /\ s[e].locals[x].n # "" /\ s[e].locals[x].n = s[e].locals[y].n
+                  \/ \E e \in 1..Len(s) : BadZero(s[e])
 HasAliasCycle(s) == \E e \in DefsOf(s, "type") : s[e].body = "alias" /\ Chase(s, s[e].n, {}) = "cycle"
 
 \* sorting a finite set of names by Rank
@@ -357,7 +366,8 @@ Mark(idx, n, st) == new' = [new EXCEPT ![idx][n] = st] /\ UNCHANGED <<uses, todo
 \* todo, or failure
 Resolve(en, rs, idx, n, st) ==
   LET e == src[en]
-      dupLocal == pc = "translateGlobal" /\ \E x, y \in 1..Len(e.locals) : x < y /\ e.locals[x].n # "" /\ e.locals[x].n = e.locals[y].n
+      dupLocal == pc = "translateGlobal" /\ ((\E x, y \in 1..Len(e.locals) : x < y /\ e.locals[x].n # "" /\ e.locals[x].n = e.locals[y].n)
+                                              \/ BadZero(e))
       bad == {t \in rs : Lookup(e, RefOf(e, t)) = "err"}
       mat == {RefOf(e, t).to : t \in {t \in rs : Lookup(e, RefOf(e, t)) = "materialise"}}
       new1 == [new EXCEPT !.attr = [m \in Names |-> IF m \in mat THEN "materialised" ELSE @[m]]]
